@@ -37,6 +37,23 @@ CLAIMED = {
              "np.argsort/np.unique modelled as a stable sort; float quantisation only via correspondence. "
              "Known findings: two blocks(wrap=True) defects.",
         technique="Lean 4 proof over hand-written executable model + differential correspondence (line protocol)"),
+    "C07": dict(
+        category="proof", design_ref="DESIGN.md 5 C07",
+        text="Lean 4 theorems over a mesh model generic in the per-vertex payload (position, colour, normal, uv, "
+             "attributes travel as one tuple) and the per-face payload: face masking (boolean / integer with "
+             "repetition) returns exactly the selected triangles in order with face data aligned; vertex masking "
+             "that keeps referenced vertices, remove_unreferenced, unmerge leave every triangle unchanged and "
+             "faces in range; merge_vertices by any key keeps every corner's key, picks the first referenced "
+             "representative, keeps face order/data and leaves no two kept vertices with one key; append / "
+             "concatenate / submesh / split+concatenate (any partition) preserve the triangle list / multiset "
+             "with attached data; unique_faces marks first occurrences. All for meshes of any size. Tied to "
+             "the code by a differential run (vertex ids, face ids, positions, colours compared element-wise).",
+        note="Trusted: Lean kernel (+propext/Classical.choice/Quot.sound), the Python harness; merge keys are exact "
+             "on the generated coordinates; visual classes' caching, nondegenerate_faces (geometric), "
+             "remove_infinite_values and process() are checked by the property oracle only. update_vertices with "
+             "a mask that drops a referenced vertex is modelled as the code behaves (witness theorem) and excluded "
+             "from the statement (no surviving triangle).",
+        technique="Lean 4 proof over hand-written executable model + differential correspondence (line protocol)"),
     "C13": dict(
         category="proof", design_ref="DESIGN.md 5 C13",
         text="Lean 4 theorems for every sequence and every count width m>=1 over an executable model of "
